@@ -67,6 +67,10 @@ structure St where
   placements : List PRec := []
   /-- `Coordinator::heartbeat_timeout` in ms -/
   timeout : Nat := 15000
+  /-- groups whose *stored* `DeployedPipelineGroup::status` is not `Running`. The field is an input mirrored
+  from the implementation's state: its update rule (`update_status` at commits, forced `Failed` when
+  `deploy_group` gives up) is not modelled, and no step of the model changes it. Only `reconcile` reads it. -/
+  notRunning : List GId := []
   deriving Repr
 
 def St.getW (s : St) (id : WId) : Option Worker := s.workers.find? (fun w => w.id == id)
@@ -306,10 +310,8 @@ def migrateAtomic (s : St) (g : GId) (n : Name) (target : WId) (deployOk : Bool)
 
 /-! ## reconcile -/
 
-/-- `GroupStatus::Running` as `update_status` computes it: at least one placement, all of them running -/
-def St.groupRunning (s : St) (g : GId) : Bool :=
-  let ps := s.placements.filter (·.gid == g)
-  !ps.isEmpty && ps.all (fun r => decide (r.status = .running))
+/-- `group.status == GroupStatus::Running` (the stored status, see `St.notRunning`) -/
+def St.groupRunning (s : St) (g : GId) : Bool := !s.notRunning.contains g
 
 /-- what `reconcile_placements` re-deploys: running placements of running groups whose worker is available
 but does not list the pipeline among its assigned ones -/
